@@ -213,7 +213,10 @@ fn main() {
                 let mut b = [0u8; 512];
                 let v = unhex(hex);
                 b[..v.len().min(512)].copy_from_slice(&v[..v.len().min(512)]);
-                Rc::make_mut(&mut dev.blocks).insert(idx.parse().unwrap(), b);
+                // a block index beyond u32 cannot be addressed by the crate: such a block does not exist
+                if let Ok(i) = idx.parse::<u32>() {
+                    Rc::make_mut(&mut dev.blocks).insert(i, b);
+                }
             }
             ["LIMIT", n] => dev.limit = n.parse().unwrap(),
             ["MOUNT", slot] => writeln!(out, "{}", do_mount(dev.clone(), slot.parse().unwrap())).unwrap(),
